@@ -153,6 +153,11 @@ def mk_tc(p, via="ctor"):
         tc = PusTc(service=p["service"], subservice=p["subservice"], apid=(p["apid"] + 1) % 2048, app_data=data + b"\x55",
                    seq_count=(p["seq"] + 1) % 16384, source_id=(p["source"] + 1) % 65536, ack_flags=p["ack"])
         tc.pack()
+        if (p["seq"] + p["source"]) % 16 == 3:
+            n = 65536 if (p["seq"] + p["apid"]) % 2 else 256
+            for i in range(n - 1):
+                tc.pus_tc_sec_header.source_id = (p["source"] + 2 + i) % 65536
+            tc.pus_tc_sec_header.source_id = (p["source"] + 1) % 65536
         view = tc.to_space_packet()          # a generic view handed out BEFORE the changes ...
         tc.apid = p["apid"]
         tc.seq_count = p["seq"]
@@ -211,6 +216,15 @@ def mk_tm(p, via="tm"):
                    message_counter=p["msgcnt"], space_time_ref=p["timeref"], destination_id=p["dest"],
                    packet_version=p["ver"])
         tm.pack()
+        if (p["seq"] + p["msgcnt"]) % 16 == 3:
+            # a long-lived object: exactly 256 / 65 536 further writes to a header field between two pack() calls (a counter
+            # bumped once per packet), the last one being the wanted value - a change counter that wraps must not call that
+            # "unchanged"
+            n = 65536 if (p["seq"] + p["dest"]) % 2 else 256
+            sec = tm.pus_tm_sec_header
+            for i in range(n - 1):
+                sec.message_counter = (p["msgcnt"] + 1 + i) % 65536
+            sec.message_counter = p["msgcnt"]
         view = tm.to_space_packet()
         tm.apid = p["apid"]
         assign_grown(tm, "tm_data", p["data"])
